@@ -892,7 +892,7 @@ class PositionArray(PosBase):
                     pos_args.update({a: memo[fieldname]})
                 else:
                     # the other field has not been read yet
-                    attr_group = h5_group.parent[fieldname]
+                    attr_group = h5_group.file[fieldname.replace(".", "/")]
                     cls_module, _, cls_name = attr_group.attrs["__class__"].rpartition(".")
                     attr_cls = getattr(sys.modules[cls_module], cls_name)
                     arg = attr_cls._read(attr_group, memo)
@@ -1248,7 +1248,7 @@ class PositionDeltaArray(PosBase):
                     delta_args.update({a: memo[fieldname]})
                 else:
                     # the other field has not been read yet
-                    attr_group = h5_group.parent[fieldname]
+                    attr_group = h5_group.file[fieldname.replace(".", "/")]
                     cls_module, _, cls_name = attr_group.attrs["__class__"].rpartition(".")
                     attr_cls = getattr(sys.modules[cls_module], cls_name)
                     arg = attr_cls._read(attr_group, memo)
@@ -1630,7 +1630,7 @@ class PosVelArray(PositionArray):
                     pos_args.update({a: memo[fieldname]})
                 else:
                     # the other field has not been read yet
-                    attr_group = h5_group.parent[fieldname]
+                    attr_group = h5_group.file[fieldname.replace(".", "/")]
                     cls_module, _, cls_name = attr_group.attrs["__class__"].rpartition(".")
                     attr_cls = getattr(sys.modules[cls_module], cls_name)
                     arg = attr_cls._read(attr_group, memo)
@@ -1768,7 +1768,7 @@ class PosVelDeltaArray(PositionDeltaArray):
                     delta_args.update({a: memo[fieldname]})
                 else:
                     # the other field has not been read yet
-                    attr_group = h5_group.parent[fieldname]
+                    attr_group = h5_group.file[fieldname.replace(".", "/")]
                     cls_module, _, cls_name = attr_group.attrs["__class__"].rpartition(".")
                     attr_cls = getattr(sys.modules[cls_module], cls_name)
                     arg = attr_cls._read(attr_group, memo)
